@@ -56,7 +56,8 @@ REQUIRED_BUCKETS = ["op:reached_own", "traj:custom-full", "op:occ", "op:state", 
                     "op:deepcopy", "op:pickle", "op:draw", "op:write_xml", "op:write_pb", "op:occset",
                     "traj:custom-vvy", "traj:pm", "traj:ks", "pred:set", "shape:group",
                     "tbl:defaultdict-missing", "tbl:dict-missing", "tbl:none", "export:xml-ok", "export:pb-ok", "merge:ids-to-merge",
-                    "op:lanelet_q", "op:net_copy", "op:goal_reached", "op:find_shape", "op:states_at"]
+                    "op:lanelet_q", "op:net_copy", "op:goal_reached", "op:find_shape", "op:states_at", "op:by_interval", "op:map_obstacles",
+                    "lanelet_q:dyn_by_time", "lanelet_q:obstacles", "lanelet_q:merge_succ"]
 WORKERS = {"quick": 1, "thorough": 8}
 
 # ------------------------------------------------------------------------------------------------ generators
@@ -373,7 +374,7 @@ def gen_ops(r, spec, n=None, allow_draw=True):
             if lids:
                 ops.append(["lanelet_q", r.choice(lids), r.choice(["contains", "interpolate", "orientation", "obstacles", "succ_range",
                                                                     "merge_succ", "merge_succ", "merge_pred", "pred_range", "dyn_by_time",
-                                                                    "polygon", "distance"]), pts()])
+                                                                    "dyn_by_time", "dyn_by_time", "obstacles", "polygon", "distance"]), pts()])
         elif k == "net_copy":
             ops.append(["net_copy", r.choice(["network", "list", "shape"])])
         elif k == "most_likely":
@@ -880,6 +881,7 @@ def run_op(ctx, sc, pps, op, twin):
         return hash(_target(sc, pps, op[1])) is not None
     if k == "copy":
         c = copy.copy(_target(sc, pps, op[1]))
+        _LAST["copy"] = c
         return type(c).__name__
     if k == "deepcopy":
         c = copy.deepcopy(_target(sc, pps, op[1]))
@@ -916,21 +918,22 @@ def run_op(ctx, sc, pps, op, twin):
         if q == "orientation":
             return float(l.orientation_by_position(np.array(op[3][0])))
         if q == "obstacles":
-            return [o.obstacle_id for o in l.get_obstacles(sc.static_obstacles, 0)]
+            t = int(op[3][0][0] * 16) % 3          # 0, 1 or 2, derived from the case
+            return [o.obstacle_id for o in l.get_obstacles(sc.static_obstacles + sc.dynamic_obstacles, t)]
         if q == "succ_range":
             return l.find_lanelet_successors_in_range(net, 45.0)
         if q == "merge_succ":
             from commonroad.scenario.lanelet import Lanelet
             ls, ids = Lanelet.all_lanelets_by_merging_successors_from_lanelet(l, net, 60.0)
-            return ids
+            return [ids, [_regs(m) for m in ls]]
         if q == "merge_pred":
             from commonroad.scenario.lanelet import Lanelet
             ls, ids = Lanelet.all_lanelets_by_merging_predecessors_from_lanelet(l, net, 60.0)
-            return ids
+            return [ids, [_regs(m) for m in ls]]
         if q == "pred_range":
             return l.find_lanelet_predecessors_in_range(net, 45.0)
         if q == "dyn_by_time":
-            return sorted(l.dynamic_obstacle_by_time_step(1))
+            return sorted(l.dynamic_obstacle_by_time_step(int(op[3][0][0] * 16) % 5))
         if q == "polygon":
             return len(l.polygon.vertices) + len(l.convert_to_polygon().vertices)
         if q == "distance":
@@ -949,11 +952,16 @@ def run_op(ctx, sc, pps, op, twin):
         sts = [KSState(time_step=0, position=np.array([a, b]), orientation=c) for a, b, c in op[1]]
         return [int(i) for i in net.find_most_likely_lanelet_by_state(sts)]
     if k == "map_obstacles":
-        obs = sc.static_obstacles
+        obs = sc.static_obstacles + sc.dynamic_obstacles
         if op[1] == "map":
             return {str(a): [o.obstacle_id for o in b] for a, b in net.map_obstacles_to_lanelets(obs).items()}
         return [o.obstacle_id for o in net.filter_obstacles_in_network(obs)]
     raise ValueError(f"unknown op {op}")
+
+
+def _regs(l):
+    return [sorted(int(x) for x in l.static_obstacles_on_lanelet),
+            sorted([int(t), sorted(int(x) for x in ids)] for t, ids in l.dynamic_obstacles_on_lanelet.items())]
 
 
 def do_draw(sc, pps, p):
@@ -1073,15 +1081,20 @@ def abstract(sc, pps, I, cells):
     net = sc.lanelet_network
     tls = list(TrafficLightState)
     lights = [[l.traffic_light_id, [[tls.index(e.state), int(e.duration)] for e in l.traffic_light_cycle.cycle_elements],
-               int(l.traffic_light_cycle.time_offset), hasattr(l.traffic_light_cycle, "_cycle_init_timesteps")] for l in net.traffic_lights]
+               int(l.traffic_light_cycle.time_offset), hasattr(l.traffic_light_cycle, "_cycle_init_timesteps"), bool(l.active)]
+              for l in net.traffic_lights]
     problems = []
     for pid, p in pps.planning_problem_dict.items():
         t = p.goal.lanelets_of_goal_position
-        problems.append([pid, [g.has_value("position") for g in p.goal.state_list],
+        problems.append([pid, abs_state(p.initial_state, I), [[n for n in g.used_attributes if n != "time_step"] for g in p.goal.state_list],
                          None if t is None else ["defaultdict" if isinstance(t, collections.defaultdict) else "dict",
                                                  [[int(k), [int(x) for x in v]] for k, v in t.items()]]])
     return {"obstacles": obs,
-            "net": {"lanelets": [[l.lanelet_id, cells.get(l.lanelet_id, [])] for l in net.lanelets], "index": getattr(net, "_strtee", None) is not None},
+            "net": {"lanelets": [[l.lanelet_id, cells.get(l.lanelet_id, []), [int(x) for x in l.successor], [int(x) for x in l.predecessor],
+                                  sorted(int(x) for x in l.static_obstacles_on_lanelet),
+                                  [[int(t), sorted(int(x) for x in ids)] for t, ids in l.dynamic_obstacles_on_lanelet.items()],
+                                  sorted(int(x) for x in l.traffic_lights)]
+                                 for l in net.lanelets], "index": getattr(net, "_strtee", None) is not None},
             "lights": lights, "problems": problems}
 
 
@@ -1210,8 +1223,50 @@ class Spy:
         self.light = [by_cycle[i] for i in self._cycles if i in by_cycle]
 
 
-def model_op(op, P, spy):
-    """harness operation -> (model operation, how to compare its answer)"""
+def goal_decisions(pp, state):
+    """per goal state: does `state` reach a goal region made of (a copy of) that goal state alone?  (the decision itself is
+    C08's subject; here it is a parameter of the model)"""
+    from commonroad.planning.goal import GoalRegion
+    out = []
+    for g in pp.goal.state_list:
+        with warnings.catch_warnings():
+            warnings.simplefilter("ignore")
+            r = call(lambda: GoalRegion([copy.deepcopy(g)]).is_reached(copy.deepcopy(state)))
+        out.append(bool(r[1]) if r[0] == "ok" else {"err": r[1]})
+    return out
+
+
+def _target_json(t):
+    return t if isinstance(t, str) else [t[0], t[1]]
+
+
+def _intersects(lanelet, occ):
+    from commonroad.geometry.shape import ShapeGroup
+    sh = occ.shape
+    parts = sh.shapes if isinstance(sh, ShapeGroup) else [sh]
+    lp = lanelet.polygon.shapely_object
+    return any(lp.intersects(x.shapely_object) for x in parts)
+
+
+def _rel(twin_sc, lanelets, obstacles, t):
+    """(lanelet id, obstacle id) pairs whose polygons intersect at time t — evaluated on the untouched twin, directly with
+    shapely (the geometric predicate is a parameter of the model)"""
+    rel = []
+    for o in obstacles:
+        with warnings.catch_warnings():
+            warnings.simplefilter("ignore")
+            r = call(twin_sc.obstacle_by_id(o.obstacle_id).occupancy_at_time, t)
+        if r[0] != "ok" or r[1] is None:
+            continue
+        for l in lanelets:
+            if _intersects(twin_sc.lanelet_network.find_lanelet_by_id(l.lanelet_id), r[1]):
+                rel.append([l.lanelet_id, o.obstacle_id])
+    return rel
+
+
+def model_op(op, P, spy, env):
+    """harness operation -> (model operation, how to compare its answer).  env: sc, pps, twin, I (interning), S (shape tokens)"""
+    sc, pps, twin, I = env["sc"], env["pps"], env["twin"], env["I"]
     k = op[0]
     if k == "occ":
         return ["occ", op[1], op[2]], "occ"
@@ -1226,6 +1281,8 @@ def model_op(op, P, spy):
     if k == "find_pos":
         toks = [P.index(tuple(p)) for p in op[1]]
         return ["findPos", toks], "find_pos"
+    if k == "find_shape":
+        return ["findShape", env["S"][json.dumps(op[1])]], "sorted"
     if k == "light":
         return ["light", op[1], op[2]], "same"
     if k in ("deepcopy", "pickle") and op[1] in ("scenario", "net"):
@@ -1234,6 +1291,71 @@ def model_op(op, P, spy):
         return ["writeXml", op[1] == "full"], "file-xml"
     if k == "write_pb":
         return ["writePb", op[1] == "full"], "file-pb"
+    if k == "reached":
+        st = mk_state(op[2])
+        return ["reached", op[1], {"k": "foreign", "st": abs_state(st, I)}, goal_decisions(twin[1].planning_problem_dict[op[1]], st)], "same"
+    if k == "goal_reached":
+        sts = [mk_state(x) for x in op[3]]
+        pp = twin[1].planning_problem_dict[op[1]]
+        return ["goalReached", op[1], {"k": "foreign", "states": [abs_state(x, I) for x in sts]}, [goal_decisions(pp, x) for x in sts]], "reach"
+    if k == "reached_own":
+        pp = twin[1].planning_problem_dict[op[1]]
+        o, to = sc.obstacle_by_id(op[2]), twin[0].obstacle_by_id(op[2])
+        if op[3] == "initial":
+            return ["reached", op[1], {"k": "prob"}, goal_decisions(pp, pp.initial_state)], "same"
+        if op[3] == "trajectory":
+            return ["goalReached", op[1], {"k": "own", "oid": op[2]}, [goal_decisions(pp, x) for x in to.prediction.trajectory.state_list]], "reach"
+        x = to.state_at_time(op[4])
+        if x is None:
+            return ["reached", op[1], {"k": "traj", "oid": op[2], "i": 10 ** 6}, []], "same"
+        if x is to.initial_state:
+            return ["reached", op[1], {"k": "init", "oid": op[2]}, goal_decisions(pp, x)], "same"
+        i = next(i for i, y in enumerate(to.prediction.trajectory.state_list) if y is x)
+        return ["reached", op[1], {"k": "traj", "oid": op[2], "i": i}, goal_decisions(pp, x)], "same"
+    if k == "eq":
+        return ["eq", _target_json(op[1])], "eq"
+    if k == "hash":
+        return ["hash", _target_json(op[1])], "skip"
+    if k == "copy":
+        return ["shallowCopy", _target_json(op[1])], "copy" if op[1] == "scenario" else "skip"
+    if k == "by_interval":
+        from commonroad.common.util import Interval
+        ivx, ivy = Interval(*op[1]), Interval(*op[2])
+        inside = []
+        for o in twin[0].dynamic_obstacles:
+            with warnings.catch_warnings():
+                warnings.simplefilter("ignore")
+                r = call(o.occupancy_at_time, op[3])
+            if r[0] == "ok" and r[1] is not None:
+                c = getattr(r[1].shape, "center", None)
+                if c is None or (ivx.contains(c[0]) and ivy.contains(c[1])):
+                    inside.append(o.obstacle_id)
+        for o in twin[0].static_obstacles:
+            c = o.initial_state.position
+            if ivx.contains(c[0]) and ivy.contains(c[1]):
+                inside.append(o.obstacle_id)
+        return ["byIntervals", op[3], inside], "same"
+    if k == "map_obstacles":
+        obs = sc.static_obstacles + sc.dynamic_obstacles
+        return ["mapObstacles", [o.obstacle_id for o in obs], _rel(twin[0], sc.lanelet_network.lanelets, obs, 0)], "mapping-" + op[1]
+    if k == "lanelet_q" and op[2] == "obstacles":
+        t = int(op[3][0][0] * 16) % 3
+        obs = sc.static_obstacles + sc.dynamic_obstacles
+        l = sc.lanelet_network.find_lanelet_by_id(op[1])
+        return ["getObstacles", op[1], [o.obstacle_id for o in obs], t, _rel(twin[0], [l], obs, t)], "same"
+    if k == "lanelet_q" and op[2] == "dyn_by_time":
+        return ["dynByTime", op[1], int(op[3][0][0] * 16) % 5], "sorted"
+    if k == "lanelet_q" and op[2] in ("merge_succ", "merge_pred"):
+        ans = _LAST.get("answer")
+        paths = [p[1:] for p in ans[0]] if ans else []          # the routes depend on lanelet lengths: taken from the answer
+        return ["mergeFrom", op[1], paths], "regs"
+    if k == "draw":
+        from commonroad.geometry.shape import Rectangle
+        from commonroad.visualization.icons import supported_icons
+        p = op[1]
+        icon_ids = [o.obstacle_id for o in sc.dynamic_obstacles if o.obstacle_type in supported_icons() and isinstance(o.obstacle_shape, Rectangle)]
+        return ["draw", {"scenario": p["what"] in ("scenario", "both"), "tb": p["tb"], "te": p["te"], "occ": p["occ"], "icon": p["icon"],
+                         "iconIds": icon_ids, "history": 5 if p["hist"] else 0}], "skip"
     return ["reads", spy.occ, spy.light], "skip"
 
 
@@ -1254,7 +1376,7 @@ def _observable(view):
         if isinstance(p, dict) and p.get("k") == "traj":
             o = dict(o, pred={k: v for k, v in p.items() if k != "cache"})
         obs.append(o)
-    return {"obstacles": obs, "lanelets": view["net"]["lanelets"], "lights": [l[:3] for l in view["lights"]], "problems": view["problems"]}
+    return {"obstacles": obs, "lanelets": view["net"]["lanelets"], "lights": [l[:3] + l[4:] for l in view["lights"]], "problems": view["problems"]}
 
 
 def _hidden(view):
@@ -1289,6 +1411,19 @@ def _compare_answer(mode, impl, model, amb, op):
         if amb:
             return None
         ok = v == [sorted(x) for x in m]
+    elif mode == "eq":
+        ok = v == [m, m, m]
+    elif mode == "reach":
+        ok = v == ([True, m] if m is not None else [False, -1])
+    elif mode == "mapping-map":
+        ok = v == {str(l): o for l, o in m}
+    elif mode == "mapping-filter":
+        flat = []
+        for _, o in m:
+            flat += [x for x in o if x not in flat]
+        ok = v == flat
+    elif mode == "regs":
+        ok = v[1] == [[sorted(st), sorted([t, sorted(ids)] for t, ids in dy)] for st, dy in m]
     elif mode == "copy":
         ok = _observable(v) == _observable(m)
         if not ok:
@@ -1322,6 +1457,19 @@ def run_case(ctx, case, with_model=True, old_pb=False):
                 if tuple(q) not in P:
                     P.append(tuple(q))
     cells, ambiguous = point_cells(spec, P)
+    with warnings.catch_warnings():
+        warnings.simplefilter("ignore")
+        aux = build(spec)        # a third copy, used only to evaluate the geometric / decision parameters of model operations
+    S = {}
+    for op in ops:
+        if op[0] == "find_shape" and json.dumps(op[1]) not in S:
+            tok = len(P) + len(S)
+            S[json.dumps(op[1])] = tok
+            so = mk_shape(op[1]).shapely_object
+            for l in aux[0].lanelet_network.lanelets:
+                if l.polygon.shapely_object.intersects(so):
+                    cells[l.lanelet_id].append(tok)
+    env = {"sc": sc, "pps": pps, "twin": aux, "I": I, "S": S}
     steps = []          # (model op, compare mode, impl answer, impl abstract view afterwards, ambiguous?, harness op)
     st0 = abstract(sc, pps, I, cells)
     nfail0 = len(ctx.failures)
@@ -1357,7 +1505,8 @@ def run_case(ctx, case, with_model=True, old_pb=False):
             res = call(run_op, ctx, sc, pps, op, twin)
         if res[0] == "err":
             ctx.tag("op-raises:" + op[0] + ":" + res[1])
-        mop, mode = model_op(op, P, spy)
+        _LAST["answer"] = res[1] if res[0] == "ok" else None
+        mop, mode = model_op(op, P, spy, env)
         ans = res
         if res[0] == "ok":
             if mode == "copy":
@@ -1417,11 +1566,18 @@ def run_case(ctx, case, with_model=True, old_pb=False):
         args["old_pb"] = True
     mres = ctx.driver.ask("C18", "trace", args)
     impl_l, model_l, what = [], [], ""
+    hid_seen = False
     for (mop, mode, ans, view, amb, op), mr in zip(steps, mres):
         bad = _compare_answer(mode, ans, mr["out"], amb, op)
         # the observable part of the state view is compared strictly; where the hidden cache flags sit (private slots, their
         # names are an implementation detail) is only recorded: a rewrite that caches differently is not a disagreement
-        ctx.tag("hidden-cache-flags:" + ("agree" if _hidden(view) == _hidden(mr["st"]) else "differ"))
+        hid_ok = _hidden(view) == _hidden(mr["st"])
+        ctx.tag("hidden-cache-flags:" + ("agree" if hid_ok else "differ"))
+        if not hid_ok and not hid_seen:
+            hid_seen = True
+            ctx.tag("hidden-cache-flags:first-differ-at:" + op[0])
+            if os.environ.get("C18_DEBUG_HIDDEN"):
+                print("HIDDEN", op, _hidden(view), _hidden(mr["st"]), ans[:2] if ans[0] == "err" else "ok", json.dumps(mop)[:200])
         vd = first_diff(_observable(view), _observable(mr["st"]))
         if (bad or vd) and not what:
             what = f"step {len(impl_l)} {op[:3]} (model op {json.dumps(mop)[:80]}): " + (f"state view differs at {vd}; " if vd else "") + (bad or "")
